@@ -14,6 +14,9 @@ structure StreamDrv where
   cur : Nat := 0
   backups : List (Nat × BackupOut) := []
   sw : Option SwState := none
+  /-- a stepped run in progress (`stream-begin` … `stream-end`): its parameters and the read
+      timestamp `Stream.beginRun` pinned -/
+  run : Option (List (String × String) × Nat) := none
   deriving Inhabited
 
 def StreamDrv.db (s : StreamDrv) : Db :=
@@ -152,6 +155,30 @@ def streamStep (s : StreamDrv) (line : String) : StreamDrv × String :=
     let out := streamRun (mergeAll d.lsm.sources) cfg d.now ranges rts
     let doneN := if argBool kv "done" then ranges.length else 0
     (s.setDb d, s!"ok mid={midOut} done={doneN} " ++ fmtLists out)
+  -- a stepped run with a script at its mid-run point: `beginRun` holds the run's transaction (its
+  -- read mark) from `stream-begin` to `stream-end`, so the discard watermark the lines in
+  -- between see cannot pass the run's read timestamp. With NumVersionsToKeep = 1 (the harness
+  -- generates these runs only then) what `ToList` delivers at that timestamp is the same before
+  -- and after a compaction, so all ranges are computed at `stream-end`.
+  | "stream-begin" :: rest =>
+    let kv := kvArgs rest
+    let d := s.db
+    let rts0 := if d.opts.managed then argNat kv "at" 0 else d.nextTs - 1
+    let d := if d.opts.managed then d else { d with readMark := d.readMark.begin rts0 }
+    ({ (s.setDb d) with run := some (kv, rts0) }, "ok")
+  | ["stream-end"] =>
+    match s.run with
+    | none => (s, "bad-op")
+    | some (kv, rts0) =>
+      let d := s.db
+      let cfg : StreamCfg :=
+        toListCfg d.opts.numKeep d.now ((fromHex (argStr kv "prefix")).getD []) (argNat kv "since" 0)
+          (chooseFn (argNat kv "choose" 0) d.now)
+      let ranges := streamRanges kv
+      let out := streamRun (mergeAll d.lsm.sources) cfg d.now ranges rts0
+      let doneN := if argBool kv "done" then ranges.length else 0
+      let d := if d.opts.managed then d else { d with readMark := d.readMark.done rts0 }
+      ({ (s.setDb d) with run := none }, s!"ok done={doneN} " ++ fmtLists out)
   | "backup" :: rest =>
     let kv := kvArgs rest
     let d := s.db
